@@ -341,7 +341,7 @@ LAT_CONFIGS = {
             ('line7-allworlds', q(V_TOPO='line', V_N=7, V_MAXD=3, V_LVS=1, V_BIAS='p', V_MAXT=3, V_MAXCALLS=2, V_WORLDS='all')),
             ('ring8-few', q(V_TOPO='ring', V_N=8, V_MAXD=3, V_LVS=1, V_BIAS='p', V_MAXT=4, V_MAXCALLS=2, V_WORLDS='few')),
             ('grid3x3-few', q(V_TOPO='grid', V_N=9, V_W=3, V_MAXD=2, V_LVS=1, V_BIAS='0', V_MAXT=3, V_MAXCALLS=2, V_WORLDS='few', V_PROBLEMS='one')),
-            ('line5-api5', q(V_TOPO='line', V_N=5, V_MAXD=2, V_LVS=1, V_BIAS='0', V_MAXT=1, V_MAXCALLS=5, V_WORLDS='few', V_PROBLEMS='one')),
+            ('line5-api5', q(V_TOPO='line', V_N=5, V_MAXD=2, V_LVS=1, V_BIAS='0', V_MAXT=0, V_MAXCALLS=5, V_WORLDS='few', V_PROBLEMS='one')),
         ],
     },
     'rrtstar': {
@@ -372,7 +372,8 @@ LAT_CONFIGS = {
         ],
         'thorough': [
             ('line7-allworlds', q(V_TOPO='line', V_N=7, V_MAXD=2, V_LVS=1, V_BIAS='p', V_MAXT=3, V_MAXCALLS=2, V_WORLDS='all', V_PROBLEMS='one')),
-            ('ring8-few', q(V_TOPO='ring', V_N=8, V_MAXD=2, V_LVS=1, V_BIAS='p', V_MAXT=4, V_MAXCALLS=2, V_WORLDS='few', V_PROBLEMS='one')),
+            ('ring8-few', q(V_TOPO='ring', V_N=8, V_MAXD=1, V_LVS=1, V_BIAS='p', V_MAXT=5, V_MAXCALLS=2, V_WORLDS='few', V_PROBLEMS='one')),
+            ('line6-allworlds-many', q(V_TOPO='line', V_N=6, V_MAXD=2, V_LVS=1, V_BIAS='p', V_MAXT=3, V_MAXCALLS=2, V_WORLDS='all')),
             ('line5-api', q(V_TOPO='line', V_N=5, V_MAXD=2, V_LVS=1, V_BIAS='0', V_MAXT=1, V_MAXCALLS=4, V_WORLDS='few', V_PROBLEMS='one')),
         ],
     },
@@ -387,8 +388,8 @@ LAT_CONFIGS = {
         ],
         'thorough': [
             ('line5-many', q(V_TOPO='line', V_N=5, V_RAD2=5, V_LVS=1, V_BUILD=2, V_MAXCALLS=3, V_WORLDS='all')),
-            ('line6-deep', q(V_TOPO='line', V_N=6, V_RAD2=5, V_LVS=1, V_BUILD=3, V_MAXCALLS=3, V_WORLDS='few', V_PROBLEMS='one')),
-            ('grid3x3', q(V_TOPO='grid', V_N=9, V_W=3, V_RAD2=5, V_LVS=1, V_BUILD=2, V_MAXCALLS=3, V_WORLDS='few', V_PROBLEMS='one')),
+            ('line6-deep', q(V_TOPO='line', V_N=6, V_RAD2=5, V_LVS=1, V_BUILD=4, V_MAXCALLS=3, V_WORLDS='few', V_PROBLEMS='one')),
+            ('grid3x3', q(V_TOPO='grid', V_N=9, V_W=3, V_RAD2=5, V_LVS=1, V_BUILD=3, V_MAXCALLS=3, V_WORLDS='few', V_PROBLEMS='one')),
             ('ring6-api6', q(V_TOPO='ring', V_N=6, V_RAD2=3, V_LVS=1, V_BUILD=1, V_MAXCALLS=6, V_WORLDS='few', V_PROBLEMS='one')),
         ],
     },
